@@ -23,6 +23,16 @@ CHECKS = {
          "prediction (replace: old pair, remove: that pair, clear/free: the rest; never a stored pair, never twice); comparator rejects dead objects; "
          "without notifiers objects must stay intact. Removal classes (0/1/2 children x depth) are counted and must all be exercised.",
     note="Trusts the harness model; quarantine of 8192 dead objects backs the double-destroy detection, ASan beyond that."),
+ "C11": dict(cat="exploration", ref="§3 C11",
+    technique="differential runtime oracle: hashlib / independent GOST reference vs PCryptoHash over generated chunkings and call sequences, ASan build; 4 GiB single updates",
+    text="Every read of a generated call sequence (all lengths 0..3*block+8, every two-way split up to 2*block+8, random update/reset/read/get_digest sequences, "
+         "single updates of 2^32+5 bytes) is compared with the standard digest; hex form, length, repeatability and ignored-after-read are part of the comparison.",
+    note="Trusts hashlib and lib/vf/gost_ref.py (self-tested on published vectors); GOST at 4 GiB is differential only."),
+ "C15": dict(cat="exploration", ref="§3 C15",
+    technique="runtime reference-model monitor (identity map / sequence) over random histories with adversarial pointer bit patterns, ASan+UBSan",
+    text="PHashTable and PList driven next to array models; after every op lookups are compared, periodically the whole content (keys/values/lookup_by_value multisets, list walk); "
+         "keys from INT_MAX-adjacent, negative, bucket-colliding, NULL, all-ones classes; UBSan/ASan abort = undefined behaviour for some pointer value.",
+    note="Trusts the harness models; UB freedom only for executed inputs."),
 }
 
 NOT_YET = {}
